@@ -1088,3 +1088,144 @@ func genBackupFn(repo, out string) {
 	}
 	writeIfChanged(filepath.Join(out, "BackupFn.v"), b.String())
 }
+
+// ---- arch.mtreeQuote: a loop over the bytes of a string that writes each byte or its \ooo escape ----
+// var b strings.Builder
+// for i := 0; i < len(s); i++ { if c := s[i]; COND { fmt.Fprintf(&b, "\\%03o", c) } else { b.WriteByte(c) } }
+// return b.String()
+func genQuoteFn(repo, out string) {
+	f := parseFile(filepath.Join(repo, "arch/arch.go"))
+	c := &trCtx{}
+	body := "[]"
+	var fd *ast.FuncDecl
+	for _, d := range f.Decls {
+		if x, ok := d.(*ast.FuncDecl); ok && x.Name.Name == "mtreeQuote" && x.Body != nil {
+			fd = x
+		}
+	}
+	func() {
+		if fd == nil {
+			c.fail("no function mtreeQuote in arch/arch.go")
+			return
+		}
+		if len(fd.Body.List) != 3 {
+			c.fail("body is not: builder, loop, return")
+			return
+		}
+		loop, ok := fd.Body.List[1].(*ast.ForStmt)
+		if !ok || len(loop.Body.List) != 1 {
+			c.fail("no byte loop")
+			return
+		}
+		// for i := 0; i < len(s); i++
+		init, ok1 := loop.Init.(*ast.AssignStmt)
+		cnd, ok2 := loop.Cond.(*ast.BinaryExpr)
+		post, ok3 := loop.Post.(*ast.IncDecStmt)
+		if !ok1 || !ok2 || !ok3 || cnd.Op != token.LSS || post.Tok != token.INC {
+			c.fail("the loop is not: for i := 0; i < len(s); i++")
+			return
+		}
+		if z, ok := init.Rhs[0].(*ast.BasicLit); !ok || z.Value != "0" {
+			c.fail("the loop does not start at 0")
+			return
+		}
+		if ce, ok := cnd.Y.(*ast.CallExpr); !ok || len(ce.Args) != 1 {
+			c.fail("the loop does not run to len(s)")
+			return
+		} else if id, ok := ce.Fun.(*ast.Ident); !ok || id.Name != "len" {
+			c.fail("the loop does not run to len(s)")
+			return
+		}
+		is, ok := loop.Body.List[0].(*ast.IfStmt)
+		if !ok || is.Init == nil || is.Else == nil {
+			c.fail("the loop body is not: if c := s[i]; cond { escape } else { byte }")
+			return
+		}
+		bv := is.Init.(*ast.AssignStmt).Lhs[0].(*ast.Ident).Name
+		var cond func(e ast.Expr) string
+		num := func(e ast.Expr) (int, bool) {
+			bl, ok := e.(*ast.BasicLit)
+			if !ok {
+				return 0, false
+			}
+			switch bl.Kind {
+			case token.CHAR:
+				v, _, _, err := strconv.UnquoteChar(bl.Value[1:len(bl.Value)-1], '\'')
+				return int(v), err == nil && v < 256
+			case token.INT:
+				v, err := strconv.ParseInt(bl.Value, 0, 32)
+				return int(v), err == nil && v >= 0 && v < 256
+			}
+			return 0, false
+		}
+		cond = func(e ast.Expr) string {
+			switch x := e.(type) {
+			case *ast.ParenExpr:
+				return cond(x.X)
+			case *ast.BinaryExpr:
+				if x.Op == token.LOR {
+					return "(" + cond(x.X) + " || " + cond(x.Y) + ")"
+				}
+				if x.Op == token.LAND {
+					return "(" + cond(x.X) + " && " + cond(x.Y) + ")"
+				}
+				if id, ok := x.X.(*ast.Ident); ok && id.Name == bv {
+					if v, ok := num(x.Y); ok {
+						switch x.Op {
+						case token.LEQ:
+							return fmt.Sprintf("(n <=? %d)%%N", v)
+						case token.GEQ:
+							return fmt.Sprintf("(%d <=? n)%%N", v)
+						case token.LSS:
+							return fmt.Sprintf("(n <? %d)%%N", v)
+						case token.GTR:
+							return fmt.Sprintf("(%d <? n)%%N", v)
+						case token.EQL:
+							return fmt.Sprintf("(n =? %d)%%N", v)
+						}
+					}
+				}
+			}
+			return "(" + c.fail("byte condition outside the subset") + " : bool)"
+		}
+		cd := cond(is.Cond)
+		// then: fmt.Fprintf(&b, "\\%03o", c); else: b.WriteByte(c)
+		okThen, okElse := false, false
+		if len(is.Body.List) == 1 {
+			if es, ok := is.Body.List[0].(*ast.ExprStmt); ok {
+				if ce, ok := es.X.(*ast.CallExpr); ok && len(ce.Args) == 3 {
+					if ft, ok := strLit(ce.Args[1]); ok && ft == "\\%03o" {
+						if id, ok := ce.Args[2].(*ast.Ident); ok && id.Name == bv {
+							okThen = true
+						}
+					}
+				}
+			}
+		}
+		if eb, ok := is.Else.(*ast.BlockStmt); ok && len(eb.List) == 1 {
+			if es, ok := eb.List[0].(*ast.ExprStmt); ok {
+				if ce, ok := es.X.(*ast.CallExpr); ok && len(ce.Args) == 1 {
+					if se, ok := ce.Fun.(*ast.SelectorExpr); ok && se.Sel.Name == "WriteByte" {
+						if id, ok := ce.Args[0].(*ast.Ident); ok && id.Name == bv {
+							okElse = true
+						}
+					}
+				}
+			}
+		}
+		if !okThen || !okElse {
+			c.fail("the branches are not: a backslash and three octal digits of the byte / the byte itself")
+			return
+		}
+		body = "flat_map (fun b => let n := Byte.to_N b in if " + cd + " then x5c :: oct_fixed 3 n else [b]) v_s"
+	}()
+	var b strings.Builder
+	b.WriteString("(* GENERATED from /repo (arch/arch.go: mtreeQuote) on every run by translators/strfn.go (genQuoteFn) - do not edit *)\n")
+	b.WriteString("From Coq Require Import List String Bool NArith.\nFrom Coq Require Import Strings.Byte.\nFrom NfpmV Require Import Lib.Bytes Model.Tar Model.Mtree.\nImport ListNotations.\nOpen Scope list_scope.\nOpen Scope bool_scope.\n\n")
+	if c.err != "" {
+		fmt.Fprintf(&b, "(* UNTRANSLATABLE - %s *)\nDefinition src_mtreeQuote (v_s : str) : str := [].\nDefinition src_mtreeQuote_translated : bool := false.\n", c.err)
+	} else {
+		fmt.Fprintf(&b, "Definition src_mtreeQuote (v_s : str) : str :=\n  %s.\nDefinition src_mtreeQuote_translated : bool := true.\n", body)
+	}
+	writeIfChanged(filepath.Join(out, "QuoteFn.v"), b.String())
+}
